@@ -249,6 +249,47 @@ def judge_driver(rq, o):
     return bad
 
 
+def gen_device(thorough):
+    """a real LLRPDevice, the consumer of the asynchronous-values channel stalled, more reports / events than the channel holds,
+    and then every way the connection can end"""
+    out = []
+    for cause in ("eof", "close", "reset", "update_addr", "stop"):
+        for flood in ("report", "event", "both") + (("report-empty",) if thorough else ()):
+            for consumer in ("stalled", "keeping-up"):
+                for cap, extra in (((1, 3), (16, 4)) if (thorough or (consumer == "stalled" and flood != "event")) else ((4, 3),)):
+                    out.append(dict(id="device-%s-%s-%s-cap%d+%d" % (cause, flood, consumer, cap, extra), cap=cap, extra=extra, consumer=consumer,
+                                    flood=flood, cause=cause, ctx_ms=400, budget_ms=4000))
+    return out
+
+
+DEVICE_CAUSE = {"eof": "the reader hung up", "close": "Close() on the device's client (and the reader's next keep-alive)",
+                "reset": "LLRPDevice.resetConn()", "update_addr": "LLRPDevice.UpdateAddr to another address", "stop": "LLRPDevice.Stop"}
+
+
+def judge_device(rq, o):
+    if o is None or o.get("error") or o.get("setup") != "ok" or not o.get("payload_ok"):
+        return [("harness-run", "no usable observation for device scenario %s: %s" % (rq["id"], o))]
+    bad = []
+    what = "%s while the consumer of the asynchronous-values channel (capacity %d) was %s and the reader had sent %d %s" % (
+        DEVICE_CAUSE[rq["cause"]], rq["cap"], rq["consumer"], o.get("sent", 0),
+        {"report": "tag reports", "report-empty": "empty tag reports", "event": "reader events", "both": "tag reports and reader events"}[rq["flood"]])
+    if rq["cause"] == "stop":
+        if not o.get("removed"):
+            bad.append(("device-connect-stuck-handler-parks-read-loop:stop",
+                        "%s: %d ms later the device's supervisor had not ended (the device is still in the driver's table; Stop returned %s after %s ms) — "
+                        "its Connect has not returned" % (what, rq["budget_ms"], o.get("op_result"), o.get("op_ms"))))
+        if o.get("redialed"):
+            bad.append(("device-redials-after-stop", "%s: the device dialled again" % what))
+    else:
+        if not o.get("redialed"):
+            bad.append(("device-connect-stuck-handler-parks-read-loop:%s" % rq["cause"],
+                        "%s: %d ms later the device had not dialled again (call returned %s after %s ms) — the supervisor is still inside the old "
+                        "client's Connect" % (what, rq["budget_ms"], o.get("op_result"), o.get("op_ms"))))
+        elif rq["cause"] == "update_addr" and o.get("redial_listener") != 1:
+            bad.append(("device-redials-old-address", "%s: the device dialled listener %s" % (what, o.get("redial_listener"))))
+    return bad
+
+
 def judge_late(rq, o):
     if o is None or o.get("error"):
         return [("harness-run", "no usable observation for %s: %s" % (rq["id"], o))]
@@ -404,6 +445,53 @@ def gen_scripts(thorough):
         b.expect_none()
         b.op("peer_close")
         finish(b, [5] if what != "ka" else [], "after-close-conn", "ccr")
+    # ... whichever way the CloseConnection got to the write loop: Shutdown, SendMessage, SendFor, SendNoWait (fire and forget: nobody
+    # waits for the reply), with and without a payload, on 1.0.1 and 1.1 clients, with requests already queued behind it or arriving
+    # later, and keep-alives before and after the reader's response. (Only Shutdown goes on to close the client; after the other calls
+    # the application does, as the documentation tells it to.)
+    for api in ("Shutdown", "SendMessage", "SendFor", "SendNoWait"):
+        for version in (1, 2):
+            for n in (0, 5):
+                if api == "Shutdown" and n:
+                    continue
+                for what in ("ka", "req", "both", "req-nowait", "ka-after-response"):
+                    if not thorough and n and what not in ("both", "ka"):
+                        continue
+                    b = cc.SB("c09-close-conn-by-%s-n%d-%s-v%d" % (api, n, what, version), version=version)
+                    b.connect()
+                    b.send(1, 20, 30, 481)
+                    b.reply_to(1, 30, 12, 482)
+                    b.wait(1)
+                    if api == "Shutdown":
+                        b.steps.append(dict(op="shutdown", caller=3))
+                        b.expect()
+                    else:
+                        b.send(3, 14, n, 483, api=None if api == "SendMessage" else api)
+                    cci = b.nseen - 1                        # the CloseConnection frame, read by the reader
+                    started = [3]
+                    if api == "SendNoWait":
+                        b.wait(3)                            # it has returned: the message is with the write loop
+                    if what in ("ka", "both"):
+                        b.keepalive(88)
+                        b.expect_none()
+                    if what in ("req", "both", "req-nowait"):
+                        b.send(5, 22, 6, 484, expect=False, api="SendNoWait" if what == "req-nowait" else None)
+                        started.append(5)
+                        b.expect_none()
+                    if what == "both":
+                        b.send(6, 23, 0, 0, expect=False, api="SendFor")
+                        started.append(6)
+                        b.keepalive(89)
+                        b.expect_none()
+                    b.reply(cci, 4 if api != "SendFor" else 14, pl=dict(k="status", code=0), ver=version)   # (the runner's SendFor expects the request's own type)
+                    b.wait(3)
+                    if what == "ka-after-response":
+                        b.keepalive(90)
+                    b.expect_none()
+                    if api != "Shutdown":
+                        b.op("close")
+                    b.op("peer_close")
+                    finish(b, started, "after-close-conn", "ccr", api=api)
     # cancelling one request does not disturb another one in flight; its late reply is dropped
     for first in (1, 2):
         b = cc.SB("c09-cancel-isolated-%d" % first, version=1)
@@ -791,6 +879,11 @@ def run(tier, seed, replay=None):
             o = run_stream(dexe, [rp["request"]], test="TestVerifC09Driver")[0]
             for sig, text in judge_driver(rp["request"], o):
                 report(sig, text, dict(kind="driver", request=rp["request"], observed=o))
+        elif rp.get("kind") == "device":
+            okd, dlog, dexe = vlib.build_harness("driver", PID, ["c09_test.go"])
+            o = run_stream(dexe, [rp["request"]], test="TestVerifC09Device")[0]
+            for sig, text in judge_device(rp["request"], o):
+                report(sig, text, dict(kind="device", request=rp["request"], observed=o))
         elif rp.get("kind") == "late":
             o = run_stream(exe, [rp["request"]], test="TestVerifC09LateSend")[0]
             for sig, text in judge_late(rp["request"], o):
@@ -891,6 +984,22 @@ def run(tier, seed, replay=None):
             nontriv.add((rq["id"],))
             for sig, text in judge_driver(rq, o):
                 report(sig, text + " [%s]" % rq["id"], dict(kind="driver", request=rq, observed=o))
+
+        # ---- tie 1g: a real LLRPDevice whose EdgeX side is stalled: its handlers must not keep Connect from returning
+        dev_reqs = gen_device(thorough)
+        dev_obs = run_stream(dexe, dev_reqs, shards=6, test="TestVerifC09Device")
+        for rq, o in zip(dev_reqs, dev_obs):
+            evals += 1
+            dist["device/" + rq["cause"]] = dist.get("device/" + rq["cause"], 0) + 1
+            nontriv.add((rq["id"],))
+            bad = judge_device(rq, o)
+            if bad:          # a time budget decides here: a finding is re-run alone before it is reported
+                o = run_stream(dexe, [rq], shards=1, test="TestVerifC09Device")[0]
+                bad = judge_device(rq, o)
+            for sig, text in bad:
+                report(sig, text + " [%s]" % rq["id"], dict(kind="device", request=rq, observed=o))
+        if dev_obs and dev_obs[0]:
+            samples.append(dict(request=dev_reqs[0], observed=dev_obs[0]))
 
     # ---- tie 2: frame-level scripts against the model (with / without the fixed Connect)
     scripts = gen_scripts(thorough)
